@@ -8,7 +8,7 @@ import re
 import translate
 from harness import chanscen
 from harness.chanscen import Scenario, model_request, normalize, real_reply, run_real
-from vlib.common import VERIF, Check, hexs, run_model
+from vlib.common import VERIF, Check, hexl, hexs, run_model
 
 PID = "C01"
 PLATFORMS = ["cisco_iosxe", "cisco_iosxr", "cisco_nxos", "arista_eos", "juniper_junos", "generic"]
@@ -319,6 +319,59 @@ def validate_regex_hypotheses(ck, tier):
     return bad
 
 
+def env_request(sc, res):
+    """for scenarios of LineDev's shape (LF newlines, one prompt for the whole session, no dialogues / junk / decoration / banner):
+    the request that folds the theorems' device `LineDev.onWrite` over the writes of the real run; None if the scenario is not of that shape"""
+    if sc.nl != b"\n" or sc.questions or sc.echo_junk or sc.decor or sc.prompts or sc.banner or sc.initial_prompt or res.abandoned or res.stalled or res.error:
+        return None
+    if any(op[0] in ("send_interactive", "abandon") for op in sc.ops):
+        return None
+    dev = res.device
+    if any(e[0] == "move" for e in dev.events) or len({m for m, _ in dev.exec_log}) > 1:
+        return None
+    if len(res.writes) != len(res.dev_outputs):
+        return None
+    tbl = "|".join(f"{hexs(k.strip().encode())}={hexs(v.encode())}" for k, v in sc.outputs.items() if v) or "."
+    return f"dev {hexs(dev.prompt())} {hexs(dev.trailing)} {tbl} {hexl(res.writes)}"
+
+
+def line_predicate_differential(ck, tier):
+    """ScrapliProps/C01Platform.lean proves blank / NoEarly / PromptOK for every IOS-XE prompt w.r.t. the hand-written line
+    predicate `iosxeP`; the one fact left to sampling is that the compiled class pattern accepts exactly the lines `iosxeP`
+    accepts.  Compare them on prompt-shaped and mutated lines, incl. the {1,63} / {0,32} bounds."""
+    import scrapli.driver.core as C
+    rng = ck.rng
+    c = re.compile(C.IOSXEDriver(host="h").comms_prompt_pattern.encode(), re.M | re.I)
+    alpha = b"abzAZ09_.-@/:+>#()tclTCL \t!"
+    base = [b"r1#", b"r1>", b"Router-1.lab(config-if)#", b"sw_2/1:a@b(config)#", b"r1(tcl)#", b"r1(TCL)>", b"+>", b"a" * 63 + b"#", b"a" * 64 + b"#",
+            b"h(" + b"m" * 32 + b")#", b"h(" + b"m" * 33 + b")#", b"h()#", b"#", b">", b"(x)#", b"r1(a(b)#", b"r1(a)b)#", b"r1 #", b"r1(tcl)", b"x>y(tcl)#", b"r1(conf+)#", b"r+1#", b""]
+    lines = list(base)
+    for _ in range(1500 if tier == "quick" else 20000):
+        ln = bytearray(rng.choice(base))
+        for _ in range(rng.randint(0, 3)):
+            k = rng.random()
+            if k < 0.4 and ln:
+                ln[rng.randrange(len(ln))] = rng.choice(alpha)
+            elif k < 0.7:
+                ln.insert(rng.randint(0, len(ln)), rng.choice(alpha))
+            elif ln:
+                del ln[rng.randrange(len(ln))]
+        lines.append(bytes(ln))
+    try:
+        outs = run_model("C01", [f"linep iosxe {hexs(ln)}" for ln in lines], native=True)
+    except Exception as e:
+        ck.proof_broken("model driver Drv/C01.lean (linep)", repr(e))
+        return
+    n_true = 0
+    for ln, o in zip(lines, outs):
+        want = c.search(ln) is not None
+        n_true += want
+        ck.extra["line_predicate_checks"] = ck.extra.get("line_predicate_checks", 0) + 1
+        if (o.strip() == "1") != want:
+            ck.disagree("iosxeP (Lean line predicate) vs the IOS-XE class pattern in CPython re", {"line": ln.decode("latin1")}, f"model={o.strip()} re={want}")
+    ck.extra["line_predicate_accepting_lines"] = n_true
+
+
 def run(tier, seed):
     ck = Check(PID, tier, seed, level="proof")
     ck.rule = ("scenario = driver (Generic + 5 core platforms) x stack (sync/asyncio) x hostname from the platform grammar (length 1..max) x "
@@ -337,7 +390,7 @@ def run(tier, seed):
         translate.translate(PID)
     except Exception as e:
         ck.proof_broken("translator gen/c01.py", repr(e))
-    ck.prove("ScrapliProps.C01", lemma_files=["ScrapliProps/C01Lemmas.lean", "ScrapliProps/C01Interact.lean", "ScrapliModel/Channel/Chan.lean",
+    ck.prove("ScrapliProps.C01", lemma_files=["ScrapliProps/C01Lemmas.lean", "ScrapliProps/C01Interact.lean", "ScrapliProps/C01Platform.lean", "ScrapliModel/Channel/Chan.lean",
                                                 "ScrapliModel/Channel/Basic.lean", "ScrapliModel/Channel/Ansi.lean"])
     if tier == "thorough":
         ck.leanchecker("ScrapliProps.C01")
@@ -354,6 +407,7 @@ def run(tier, seed):
                         if all(p == "F23" for p in wp) else "stored witness of F23 fails: " + wp[0])
                 ck.violation({"scenario": wsc.describe(), "problems": wp[:5]}, what)
     validate_regex_hypotheses(ck, tier)
+    line_predicate_differential(ck, tier)
     scenarios = []
     corpus = VERIF / "corpus" / "C01" / "corpus.json"
     if corpus.exists():
@@ -364,6 +418,7 @@ def run(tier, seed):
     for _ in range(n):
         scenarios.append(gen_scenario(ck.rng, tier))
     reqs, idx = [], []
+    env_reqs = []
     results = []
     for i, sc in enumerate(scenarios):
         res = run_real(sc)
@@ -379,6 +434,9 @@ def run(tier, seed):
         if req is not None:
             reqs.append(req)
             idx.append(i)
+        ereq = env_request(sc, res)
+        if ereq is not None:
+            env_reqs.append((ereq, hexl(res.dev_outputs), sc.describe()))
     try:
         outs = run_model("C01", reqs, native=True) if reqs else []
     except Exception as e:
@@ -393,6 +451,18 @@ def run(tier, seed):
         else:
             ck.disagree("channel model vs real channel (trace refinement)", scenarios[i].describe(), f"model={out[:400]} real={want[:400]}")
     ck.extra["scenarios_without_model_request"] = len(scenarios) - len(reqs)
+    # the environment of the theorems (LineDev.onWrite) against the test device (simdevice.CliDevice): same writes, same output per write
+    try:
+        eouts = run_model("C01", [e[0] for e in env_reqs], native=True) if env_reqs else []
+    except Exception as e:
+        ck.proof_broken("model driver Drv/C01.lean (dev)", repr(e))
+        eouts = []
+    for (req, want, desc), out in zip(env_reqs, eouts):
+        if out.strip() == want:
+            ck.extra["environment_traces_agreeing"] = ck.extra.get("environment_traces_agreeing", 0) + 1
+        else:
+            ck.disagree("LineDev.onWrite (the theorems' device) vs simdevice.CliDevice (the test device)", desc, f"model={out.strip()[:300]} device={want[:300]}")
+    ck.extra["environment_traces_compared"] = len(env_reqs)
     return ck.finish()
 
 
